@@ -141,3 +141,65 @@ class CellEval:
 
 def _cmp(op, a, b):
     return {"<": a < b, ">": a > b, "<=": a <= b, ">=": a >= b, "==": a == b, "!=": a != b}[op]
+
+
+class Returned(Exception):
+    def __init__(self, value):
+        self.value = value
+
+
+class CellExec:
+    """Execute a straight-line / if / return function body in one cell."""
+
+    def __init__(self, ev, on_assign_call=None):
+        self.ev = ev
+        self.on_assign_call = on_assign_call
+        self.asserts = []
+
+    def run(self, stmts):
+        try:
+            self._block(stmts)
+        except Returned as r:
+            return r.value
+        return None
+
+    def _block(self, stmts):
+        ev = self.ev
+        for st in stmts:
+            if isinstance(st, ast.Expr) and isinstance(st.value, ast.Constant):
+                continue  # docstring
+            if isinstance(st, ast.Return):
+                raise Returned(ev.eval(st.value) if st.value is not None else None)
+            if isinstance(st, ast.If):
+                self._block(st.body if ev.test(st.test) else st.orelse)
+            elif isinstance(st, ast.Assert):
+                self.asserts.append((st, ev.test(st.test)))
+            elif isinstance(st, ast.Assign) and len(st.targets) == 1:
+                tg = st.targets[0]
+                if isinstance(tg, ast.Name):
+                    ev.env[tg.id] = ev.eval(st.value)
+                elif isinstance(tg, ast.Tuple) and self.on_assign_call is not None:
+                    vals = self.on_assign_call(st, ev)
+                    if vals is None or len(vals) != len(tg.elts):
+                        raise Undecided("tuple assignment %s" % ast.unparse(st)[:60])
+                    for t_, v_ in zip(tg.elts, vals):
+                        ev.env[t_.id] = v_
+                else:
+                    raise Undecided("assignment %s" % ast.unparse(st)[:60])
+            elif isinstance(st, ast.AugAssign) and isinstance(st.target, ast.Name):
+                cur = ev.env.get(st.target.id)
+                if cur is None:
+                    raise Undecided("augmented assignment to unbound %s" % st.target.id)
+                v = ev.eval(st.value)
+                if isinstance(st.op, ast.Add):
+                    ev.env[st.target.id] = cur + v
+                elif isinstance(st.op, ast.Sub):
+                    ev.env[st.target.id] = cur - v
+                elif isinstance(st.op, ast.Mult):
+                    ev.env[st.target.id] = cur * v
+                else:
+                    raise Undecided("augmented operator")
+            elif isinstance(st, ast.Pass):
+                continue
+            else:
+                raise Undecided("statement %s" % type(st).__name__)
